@@ -156,23 +156,23 @@ fn reply(which: u8, tag: u8) -> Frame {
         0 => return Frame::Message(MessagePayload { headers: None, message: Bytes::copy_from_slice(&[tag]) }),
         1 => {}
         2 => {
-            h.insert("cid".to_owned(), "0".to_owned());
+            h.insert("cid".into(), "0".to_owned());
         }
         3 => {
-            h.insert("cid".to_owned(), "1".to_owned());
+            h.insert("cid".into(), "1".to_owned());
         }
         4 => {
-            h.insert("cid".to_owned(), "7".to_owned());
+            h.insert("cid".into(), "7".to_owned());
         }
         5 => {
-            h.insert("cid".to_owned(), "x".to_owned());
+            h.insert("cid".into(), "x".to_owned());
         }
         6 => {
-            h.insert("cid".to_owned(), "1".to_owned());
-            h.insert("req_id".to_owned(), "5".to_owned());
+            h.insert("cid".into(), "1".to_owned());
+            h.insert("req_id".into(), "5".to_owned());
         }
         _ => {
-            h.insert("req_id".to_owned(), "5".to_owned());
+            h.insert("req_id".into(), "5".to_owned());
         }
     }
     Frame::Message(MessagePayload { headers: Some(h), message: Bytes::copy_from_slice(&[tag]) })
